@@ -405,6 +405,8 @@ class History:
         bw = BitWriter()
         bw.put(1, 1)
         bw.put(pi, bits_required(len(props)))
+        # what the model's encoder (ReplayModel.encodeNested) is asked for the same operation
+        enc = {'ty': t, 'val': copy.deepcopy(ent['client'][pname]), 'nprops': len(props), 'pi': pi, 'path': [], 'leaf': None}
         # walk down
         holder, key = ent['client'], pname
         t = peel(t)
@@ -426,6 +428,7 @@ class History:
                 ci, n, ct, where, label = self.rng.choice(children)
                 bw.put(1, 1)
                 bw.put(ci, bits_required(n))
+                enc['path'].append(ci)
                 if where[0] == 'd':
                     holder, key = _DictSlot(v['d'], where[1]), 0
                 else:
@@ -438,6 +441,7 @@ class History:
         # stop bit: 0 (or, on a falsy container, possibly a 1 that the walk swallows)
         if not truthy(v) and self.rng.random() < 0.3:
             bw.put(1, 1)
+            enc = None                               # outside the encoder's domain (it writes a 0 stop bit)
         else:
             bw.put(0, 1)
         is_slice = False
@@ -453,6 +457,7 @@ class History:
             v['d'][fi][1] = nv
             path.append(fname)
             op = 'dict-set'
+            leaf = {'k': 'dictSet', 'i': fi, 'val': nv}
         else:
             et = t['of']
             if zero_width_possible(et):
@@ -466,6 +471,7 @@ class History:
                     data = b''
                     v[i] = None
                     op = 'list-clear'
+                    leaf = {'k': 'listClear', 'i': i}
                 else:
                     nv = gt.gen_value(self.rng, et, big_ok=False)
                     data = wire.encode(et, nv, 1)
@@ -473,6 +479,7 @@ class History:
                         return False
                     v[i] = nv
                     op = 'list-set'
+                    leaf = {'k': 'listSet', 'i': i, 'val': nv}
                 path.append(str(i))
             else:
                 is_slice = True
@@ -498,14 +505,19 @@ class History:
                 v[lo:hi] = new
                 path.append('%d:%d' % (i, j))
                 op = 'slice'
+                leaf = {'k': 'slice', 'i': i, 'j': j, 'vals': new}
         payload_body = bw.bytes() + data
         if t['k'] == 'array' and self.fixed_size_violation(t, v):
             pass
         payload = struct.pack('<IbI', eid, 1 if is_slice else 0, len(payload_body)) + payload_body
         # a dict field assignment always notifies; list operations only when elements were sent
         notify = copy.deepcopy(v) if (op == 'dict-set' or len(data) > 0) else None
+        if enc is not None:
+            enc['leaf'] = copy.deepcopy(leaf)
+            enc['body'] = payload_body.hex()
+            enc['after'] = copy.deepcopy(ent['client'][pname])
         self.emit('nested', payload, id=eid, path=path, op=op, body_len=len(payload_body), notify=notify,
-                  etype=self.views[ent['type']]['name'])
+                  etype=self.views[ent['type']]['name'], enc=enc)
         return True
 
     def fixed_size_violation(self, t, v):
